@@ -34,3 +34,10 @@ ASSUMPTIONS = [
     "classic single-frame data sets, complete grids (every stream converts; refusal is C11's)",
 ]
 PARTS = [M.LosslessPart]
+
+
+# source tie (integrator): meta_valid / get_meta / __getitem__ are TRANSLATED from the Python AST on every run
+# (tools/tables/t_src_lookup.py) and Ext.Model's lookups are proved equal to the translation (Props/SRClookup.v)
+COQ_PROPS = (list(COQ_PROPS) if isinstance(COQ_PROPS, (list, tuple)) else [COQ_PROPS]) + ['Props/SRClookup.v']
+THEOREMS = list(THEOREMS) + ['SRC_meta_valid', 'SRC_get_meta', 'SRC_getitem']
+TABLES = sorted(set(list(globals().get('TABLES') or []) + ['t_src_lookup', 't_classes', 't_ext_tol']))
